@@ -16,12 +16,13 @@ import (
 	"strconv"
 	"strings"
 	"sync"
+	"time"
 
 	"github.com/blinklabs-io/gouroboros/muxer"
 )
 
 func init() {
-	register(&Prop{ID: "C09", Gen: genC09, Run: runC09})
+	register(&Prop{ID: "C09", Gen: genC09, Run: runC09, Timeout: 60 * time.Second})
 }
 
 type c09Key struct {
@@ -70,44 +71,122 @@ func parseC09Keys(s string) ([]c09Key, bool) {
 	return res, true
 }
 
-// c09Receiver runs a real muxer on conn, registers regs, drains every receiver
-// until the muxer shuts down, and returns the canonical result.
-func c09Receive(conn *g4Conn, mode int, regs []c09Key) string {
-	m := muxer.New(conn)
-	type rec struct {
-		key c09Key
-		fps []string
-	}
-	seen := map[c09Key]bool{}
-	recs := []*rec{}
-	var wg sync.WaitGroup
+// c09Recv is a real muxer on conn with recording receivers; receivers can be registered
+// and unregistered while it runs.
+type c09Recv struct {
+	m    *muxer.Muxer
+	mu   sync.Mutex
+	recs map[c09Key]*c09Rec
+	wg   sync.WaitGroup
+	down chan struct{} // closed once the muxer has shut down completely
+}
+
+type c09Rec struct {
+	key  c09Key
+	fps  []string
+	last chan struct{}       // closed when the newest drain goroutine of this key has finished
+	cur  chan *muxer.Segment // channel of the registration in force (nil when unregistered)
+}
+
+func newC09Recv(conn *g4Conn, mode int, regs []c09Key) *c09Recv {
+	r := &c09Recv{m: muxer.New(conn), recs: map[c09Key]*c09Rec{}, down: make(chan struct{})}
 	for _, k := range regs {
-		if seen[k] {
-			continue
-		}
-		seen[k] = true
-		_, recvCh, _ := m.RegisterProtocol(k.id, k.role)
-		r := &rec{key: k}
-		recs = append(recs, r)
-		wg.Add(1)
-		go func() {
-			defer wg.Done()
-			for seg := range recvCh {
-				r.fps = append(r.fps, fpBytes(seg.Payload))
-			}
-		}()
+		r.register(k)
 	}
-	m.SetDiffusionMode(muxer.DiffusionMode(mode))
-	m.Start()
+	r.m.SetDiffusionMode(muxer.DiffusionMode(mode))
+	r.m.Start()
+	return r
+}
+
+func (r *c09Recv) register(k c09Key) {
+	r.mu.Lock()
+	rec := r.recs[k]
+	if rec == nil {
+		rec = &c09Rec{key: k}
+		r.recs[k] = rec
+	}
+	prev := rec.last
+	done := make(chan struct{})
+	rec.last = done
+	r.mu.Unlock()
+	_, recvCh, _ := r.m.RegisterProtocol(k.id, k.role)
+	r.mu.Lock()
+	old := rec.cur
+	rec.cur = recvCh
+	r.mu.Unlock()
+	if old != nil && recvCh != nil {
+		// registering a key again replaces the receiver in the muxer's map; the muxer never
+		// touches the old channel again (and never closes it), so end its drain loop here
+		close(old)
+	}
+	r.wg.Add(1)
+	go func() {
+		defer r.wg.Done()
+		defer close(done)
+		if prev != nil {
+			<-prev // an earlier registration of the same key drains first
+		}
+		if recvCh == nil {
+			return // muxer already shut down
+		}
+		record := func(seg *muxer.Segment) {
+			r.mu.Lock()
+			rec.fps = append(rec.fps, fpBytes(seg.Payload))
+			r.mu.Unlock()
+		}
+		for {
+			select {
+			case seg, ok := <-recvCh:
+				if !ok {
+					return
+				}
+				record(seg)
+			case <-r.down:
+				// The muxer is gone and will never send or close again. A channel it left open
+				// (not expected: the read loop closes every registered receiver) must not hang
+				// the run: take what is buffered and stop.
+				for {
+					select {
+					case seg, ok := <-recvCh:
+						if !ok {
+							return
+						}
+						record(seg)
+					default:
+						return
+					}
+				}
+			}
+		}
+	}()
+}
+
+func (r *c09Recv) unregister(k c09Key) {
+	r.m.UnregisterProtocol(k.id, k.role) // closes the channel in force, if any
+	r.mu.Lock()
+	if rec := r.recs[k]; rec != nil {
+		rec.cur = nil
+	}
+	r.mu.Unlock()
+}
+
+// finish waits for the muxer to shut down and returns the canonical result.
+func (r *c09Recv) finish() string {
 	var first error
 	got := false
-	for err := range m.ErrorChan() {
+	for err := range r.m.ErrorChan() {
 		if !got {
 			first = err
 			got = true
 		}
 	}
-	wg.Wait()
+	// receivers unregistered at run time were closed then; the rest by the read loop's exit
+	close(r.down)
+	r.wg.Wait()
+	recs := []*c09Rec{}
+	for _, rec := range r.recs {
+		recs = append(recs, rec)
+	}
 	sort.Slice(recs, func(i, j int) bool {
 		if recs[i].key.id != recs[j].key.id {
 			return recs[i].key.id < recs[j].key.id
@@ -115,14 +194,18 @@ func c09Receive(conn *g4Conn, mode int, regs []c09Key) string {
 		return recs[i].key.role < recs[j].key.role
 	})
 	parts := []string{}
-	for _, r := range recs {
-		parts = append(parts, r.key.String()+"=["+strings.Join(r.fps, ",")+"]")
+	for _, rec := range recs {
+		parts = append(parts, rec.key.String()+"=["+strings.Join(rec.fps, ",")+"]")
 	}
 	rs := "-"
 	if len(parts) > 0 {
 		rs = strings.Join(parts, ";")
 	}
 	return "err=" + muxErrClass(first) + " recv=" + rs
+}
+
+func c09Receive(conn *g4Conn, mode int, regs []c09Key) string {
+	return newC09Recv(conn, mode, regs).finish()
 }
 
 func runC09(op string) string {
@@ -138,9 +221,15 @@ func runC09(op string) string {
 	}
 	switch f[0] {
 	case "rx":
-		wire := []byte{}
+		type piece struct {
+			data []byte
+			ctl  byte // 0 none, 'u', 'g'
+			key  c09Key
+		}
+		pieces := []piece{{}}
 		for _, it := range f[4:] {
 			p := strings.Split(it, ":")
+			wire := &pieces[len(pieces)-1].data
 			switch {
 			case len(p) == 4 && p[0] == "s":
 				ts, e1 := strconv.ParseUint(p[1], 10, 32)
@@ -149,25 +238,31 @@ func runC09(op string) string {
 				if e1 != nil || e2 != nil || !ok || len(pl) > 65535 {
 					return "bad-op"
 				}
-				wire = binary.BigEndian.AppendUint32(wire, uint32(ts))
-				wire = binary.BigEndian.AppendUint16(wire, uint16(pid))
-				wire = binary.BigEndian.AppendUint16(wire, uint16(len(pl)))
-				wire = append(wire, pl...)
+				*wire = binary.BigEndian.AppendUint32(*wire, uint32(ts))
+				*wire = binary.BigEndian.AppendUint16(*wire, uint16(pid))
+				*wire = binary.BigEndian.AppendUint16(*wire, uint16(len(pl)))
+				*wire = append(*wire, pl...)
 			case len(p) == 3 && p[0] == "z":
 				ts, e1 := strconv.ParseUint(p[1], 10, 32)
 				pid, e2 := strconv.ParseUint(p[2], 10, 16)
 				if e1 != nil || e2 != nil {
 					return "bad-op"
 				}
-				wire = binary.BigEndian.AppendUint32(wire, uint32(ts))
-				wire = binary.BigEndian.AppendUint16(wire, uint16(pid))
-				wire = binary.BigEndian.AppendUint16(wire, 0)
+				*wire = binary.BigEndian.AppendUint32(*wire, uint32(ts))
+				*wire = binary.BigEndian.AppendUint16(*wire, uint16(pid))
+				*wire = binary.BigEndian.AppendUint16(*wire, 0)
 			case len(p) == 2 && p[0] == "x":
 				b, ok := unhex(p[1])
 				if !ok {
 					return "bad-op"
 				}
-				wire = append(wire, b...)
+				*wire = append(*wire, b...)
+			case len(p) == 3 && (p[0] == "u" || p[0] == "g"):
+				k, ok := parseC09Key(p[1] + ":" + p[2])
+				if !ok {
+					return "bad-op"
+				}
+				pieces = append(pieces, piece{ctl: p[0][0], key: k})
 			default:
 				return "bad-op"
 			}
@@ -175,11 +270,24 @@ func runC09(op string) string {
 		in := newStream(plan)
 		out := newStream(nil)
 		conn := newG4Conn(in, out, false)
-		if len(wire) > 0 {
-			_, _ = in.write(wire)
+		rc := newC09Recv(conn, mode, regs)
+		for _, pc := range pieces {
+			if pc.ctl != 0 {
+				// everything written so far has been read and routed: the read loop is
+				// blocked in Read. Now change the registration from this goroutine.
+				in.waitReaderIdle()
+				if pc.ctl == 'u' {
+					rc.unregister(pc.key)
+				} else {
+					rc.register(pc.key)
+				}
+			}
+			if len(pc.data) > 0 {
+				_, _ = in.write(pc.data)
+			}
 		}
 		in.closeWrite()
-		return c09Receive(conn, mode, regs)
+		return rc.finish()
 	case "tx":
 		if len(f) < 5 {
 			return "bad-op"
@@ -396,6 +504,68 @@ func genC09(r *Rand, n int, tier string, emit func(string)) {
 				rs = strings.Join(regs, ",")
 			}
 			emit(fmt.Sprintf("tx %d %s %s %d %s", mode, rs, c09Plan(r), r.Intn(1<<30), strings.Join(senders, " ")))
+			continue
+		}
+		if r.Chance(1, 5) {
+			// ---- rx with registrations changing at run time
+			mode := Pick(r, 3, 3, 3, 0)
+			id := ids[r.Intn(len(ids))]
+			other := ids[r.Intn(len(ids))]
+			regs := []string{fmt.Sprintf("%d:i", id), fmt.Sprintf("%d:r", id)}
+			if other != id && r.Bool() {
+				regs = append(regs, fmt.Sprintf("%d:%s", other, roleS[r.Intn(2)]))
+			}
+			if r.Chance(1, 10) {
+				regs = append(regs, "43981:"+roleS[r.Intn(2)])
+			}
+			segTo := func(key string) string {
+				k, _ := parseC09Key(key)
+				pid := int(k.id)
+				if k.role == muxer.ProtocolRoleInitiator {
+					pid |= 0x8000
+				}
+				return fmt.Sprintf("s:%d:%d:%s", r.Intn(1000), pid, c09Payload(r, tier))
+			}
+			cur := append([]string{}, regs...)
+			items := []string{}
+			nsteps := 2 + r.Intn(8)
+			for k := 0; k < nsteps; k++ {
+				switch r.Intn(6) {
+				case 0: // unregister something that is registered
+					if len(cur) > 0 {
+						j := r.Intn(len(cur))
+						items = append(items, "u:"+cur[j])
+						cur = append(cur[:j], cur[j+1:]...)
+					}
+				case 1: // (re-)register
+					key := fmt.Sprintf("%d:%s", Pick(r, id, id, other, 4001), roleS[r.Intn(2)])
+					items = append(items, "g:"+key)
+					found := false
+					for _, c := range cur {
+						found = found || c == key
+					}
+					if !found {
+						cur = append(cur, key)
+					}
+				case 2: // unregister something that is not registered (no-op)
+					items = append(items, fmt.Sprintf("u:%d:%s", Pick(r, id, other, 4002), roleS[r.Intn(2)]))
+					// keep cur consistent if it happened to be registered
+					key := items[len(items)-1][2:]
+					for j, c := range cur {
+						if c == key {
+							cur = append(cur[:j], cur[j+1:]...)
+							break
+						}
+					}
+				default: // traffic: mostly to registered receivers, sometimes to a removed one
+					if len(cur) > 0 && !r.Chance(1, 8) {
+						items = append(items, segTo(cur[r.Intn(len(cur))]))
+					} else {
+						items = append(items, segTo(fmt.Sprintf("%d:%s", id, roleS[r.Intn(2)])))
+					}
+				}
+			}
+			emit(fmt.Sprintf("rx %d %s %s %s", mode, strings.Join(regs, ","), c09Plan(r), strings.Join(items, " ")))
 			continue
 		}
 		// ---- rx: crafted byte stream
